@@ -71,7 +71,12 @@ impl DelegateToDefaultImpl for Rc<Unimock> {
     type Delegator = Rc<DefaultImplDelegator>;
 
     fn to_delegator(self) -> Self::Delegator {
-        Rc::new(DefaultImplDelegator::__from_unimock((*self).clone()))
+        // A solely owned pointer hands over the instance itself, like a by-value receiver.
+        // Cloning it would drop the original right here, while its clone is still alive.
+        match Rc::try_unwrap(self) {
+            Ok(unimock) => Rc::new(DefaultImplDelegator::__from_unimock(unimock)),
+            Err(shared) => Rc::new(DefaultImplDelegator::__from_unimock((*shared).clone())),
+        }
     }
 
     fn from_delegator(delegator: Self::Delegator) -> Self {
@@ -83,7 +88,12 @@ impl DelegateToDefaultImpl for Arc<Unimock> {
     type Delegator = Arc<DefaultImplDelegator>;
 
     fn to_delegator(self) -> Self::Delegator {
-        Arc::new(DefaultImplDelegator::__from_unimock((*self).clone()))
+        // A solely owned pointer hands over the instance itself, like a by-value receiver.
+        // Cloning it would drop the original right here, while its clone is still alive.
+        match Arc::try_unwrap(self) {
+            Ok(unimock) => Arc::new(DefaultImplDelegator::__from_unimock(unimock)),
+            Err(shared) => Arc::new(DefaultImplDelegator::__from_unimock((*shared).clone())),
+        }
     }
 
     fn from_delegator(delegator: Self::Delegator) -> Self {
